@@ -31,6 +31,7 @@ type Unit struct {
 	EffectsOn   bool
 	Alias       map[string]aliasSpec
 	MapKeys     map[string]string // rendered map expression ranged over -> oracle parameter holding its keys
+	MapLen      map[string]string // `len(m)` of a Go map (rendered m) -> the oracle key list of the range over it
 	MapKeyOrder []string          // the same by position: the oracle of the 1st, 2nd, … range over a Go map (source order)
 	JoinIfs     bool              // translate jump-free `if`s as joins instead of duplicating the continuation
 	StoreOn     bool              // the unit threads an explicit store value (Tables/GoStore.lean)
@@ -578,4 +579,18 @@ func init() {
 		inv("SellingPoolReserveAmountInvariant"),
 		inv("PayingPoolReserveAmountInvariant"),
 		inv("VestingPoolReserveAmountInvariant"))
+}
+
+func init() {
+	// ---- types/utils.go: BidsByPrice.  What `SortBids` returns is an oracle (`sorted__`: its
+	// comparator is not a strict weak order, so the result is whatever Go's sort makes of it); the
+	// grouping by price, the distinct prices and their descending sort are translated.
+	units = append(units,
+		Unit{Group: "Match", Name: "BidsByPrice", Pkg: typesP, Func: "BidsByPrice",
+			Params: []gparam{{Go: "bids", T: "List Bid"}, {Go: "sorted__", T: "List Bid", Oracle: true}, {Go: "keys__", T: "List Dec", Oracle: true}},
+			Ret:    []LT{"List Dec", "Map Dec List Bid"}, Named: []string{"prices", "bidsByPrice"},
+			NamedTypes:  map[string]LT{"prices": "List Dec", "bidsByPrice": "Map Dec List Bid"},
+			Calls:       map[string]callSpec{"SortBids": {Value: V{"sorted__", "List Bid"}}},
+			MapKeyOrder: []string{"keys__"}, MapLen: map[string]string{"bidsByPrice": "keys__"},
+			TypeNames: map[string]LT{"string": "Dec", "[]Bid": "List Bid", "math.LegacyDec": "Dec"}})
 }
